@@ -172,6 +172,12 @@ def case_programs(empty_bodies=False):
             cls = [f"prio {pr} {pth} -> {{ n = [{i + 1}]; {tail} }}" for i, (pth, pr) in enumerate(zip(pats3, prios))]
             src = DECLS + "parser { greedy case { " + " ".join(cls) + ' } ";"; }\n'
             out.append({"name": f"case{'E' if empty_bodies else ''}/prio{kk}g", "src": src, "args": ["-feof-support", "-fyield-support"], "path": None})
+            if not empty_bodies and kk % 2 == 0:
+                # mixed: action-only clauses competing with clauses that have a body (the priorities of both kinds must reach the merge)
+                for par in (0, 1):
+                    cls = [f"prio {pr} {pth} -> {{ n = [{i + 1}]; {tail if i % 2 == par else ''} }}" for i, (pth, pr) in enumerate(zip(pats3, prios))]
+                    src = DECLS + "parser { greedy case { " + " ".join(cls) + ' } ";"; }\n'
+                    out.append({"name": f"caseM/prio{kk}g{par}", "src": src, "args": ["-feof-support", "-fyield-support"], "path": None})
             kk += 1
     # else sharing a clause with patterns (the clause is entered through a pattern or through the no-match route)
     kk = 0
